@@ -614,6 +614,12 @@ pub fn minimise(types: &[&TypeOps], seeds: &[Vec<Prov>], events: &[Event], v: &V
 }
 
 pub fn run_one(w: &World, seed: u64, run: u64) -> RunResult {
+    run_one_opts(w, seed, run, true)
+}
+
+/// `minimise = false` inside a marathon (a block of runs sharing one thread): re-executing event
+/// lists there would itself change the thread's history.
+pub fn run_one_opts(w: &World, seed: u64, run: u64, minimise_it: bool) -> RunResult {
     let mut rng = Rng::for_run(seed, TAG_B, run);
     let modules: Vec<&&'static str> = w.by_module.keys().collect();
     let module: &'static str = **rng.pick(&modules);
@@ -644,9 +650,14 @@ pub fn run_one(w: &World, seed: u64, run: u64) -> RunResult {
         None
     };
     let violation = violation.map(|v| {
-        let (me, mv, steps) = minimise(&types, &seeds, &events, &v);
-        let doc = replay_doc(seed, run, module, &types, &seeds, &me, &mv, steps, events.len());
-        (mv, doc)
+        if minimise_it {
+            let (me, mv, steps) = minimise(&types, &seeds, &events, &v);
+            let doc = replay_doc(seed, run, module, &types, &seeds, &me, &mv, steps, events.len());
+            (mv, doc)
+        } else {
+            let doc = replay_doc(seed, run, module, &types, &seeds, &events, &v, 0, events.len());
+            (v, doc)
+        }
     });
     RunResult { stats: sim.stats, violation, digest, events: events.len(), sample }
 }
